@@ -129,6 +129,12 @@ func vfoRun(scn *vfoScn) (*vfoResult, error) {
 	if scn.CpRetry || scn.Resume {
 		cfg.UpdateCheckpointTicker = 25 * time.Millisecond
 	}
+	if scn.StallOn && !scn.CpBatch {
+		// forced D29(a) construction: no periodic position writes, so that nothing of the sender is in
+		// flight when the stalled node answers; the only position write that can follow is one sent
+		// after the receiver saw the failure
+		cfg.UpdateCheckpointTicker = time.Hour
+	}
 	if scn.CpBatch || scn.CpRetry {
 		// only the checkpoint ticker flushes: the data commands are in the flush that carries the position
 		cfg.BatchTicker = time.Hour
@@ -445,6 +451,14 @@ func vfoMonitor(scn *vfoScn, res *vfoResult) []vfoViol {
 					mech = "command-never-reached-a-node"
 				} else if cpPos >= 0 && cpPos < failPos {
 					mech = "offset-applied-before-failed-answer"
+				}
+				if scn.Pipeline && !(scn.StallOn && !scn.CpBatch) {
+					// pipelined mode dispatches positions (checkpoint ticker) while earlier data batches
+					// are dispatched but not yet acknowledged; whether such a write reaches its node before
+					// or after another node's failing answer is a matter of arrival order, which the
+					// nodes' trace cannot tell from "sent after the failure was seen". Only the forced
+					// construction (sender idle, no periodic position writes) can assert the latter.
+					mech = "pipelined-position-before-acknowledgement"
 				}
 				out = append(out, vfoViol{"checkpoint-ahead-of-execution", fmt.Sprintf("stored offset %d covers cmd %d (ends at %d), which never took effect (%s); run ended with %s (%v)",
 					maxCp, c.ID, res.Ends[c.ID], mech, res.Final, res.Err), mech})
